@@ -233,7 +233,7 @@ Proof.
   unfold chk_cache_init, capplies_at, row. destruct (init_gen (s_o s)), (o_cache (s_o s)); reflexivity.
 Qed.
 
-(** Parameter-name clashes: the code tests the concatenated positional and keyword-only
+(** Clashing initializer argument names: the code tests the concatenated positional and keyword-only
     parameter lists, the row speaks of the aliases of all init fields. *)
 Lemma nodupb_has_dup l : nodupb l = negb (has_dup l).
 Proof.
